@@ -199,9 +199,9 @@ pub fn fan_out(id: &str, tier: &str, sink: &Sink, extra: &[String]) -> Result<Me
             errors.push(format!("worker {k} of {id} did not finish (status {status}): {}", tail.into_iter().rev().collect::<Vec<_>>().join(" | ")));
         }
     }
-    if id != "C09" && !merged.hung.is_empty() {
-        // only C09 judges "the search never answers"; for every other check a worker that had to
-        // give up is a machinery error
+    if id != "C09" && id != "C15" && !merged.hung.is_empty() {
+        // C09 judges "the search never answers" and C15 "the parser never returns"; for every
+        // other check a worker that had to give up is a machinery error
         errors.push(format!("{} worker(s) of {id} gave up on a search that ignored the stop flag: {}", merged.hung.len(), merged.hung[0]));
     }
     if errors.is_empty() {
